@@ -1,0 +1,14 @@
+//go:build verif
+
+package server
+
+// verifHook, when set by a verification harness, is called at the named
+// scheduling points so that a native replay can wait until the events it
+// scripted are pending. Never set outside the harnesses.
+var verifHook func(name string)
+
+func verifPoint(name string) {
+	if h := verifHook; h != nil {
+		h(name)
+	}
+}
